@@ -9,7 +9,7 @@ use crate::prng::{hash_str, mix64, Rng};
 use crate::report::{par_run, Failure, Report};
 use crate::Ctx;
 
-type R4 = (u32, u32, u32, u32);
+pub type R4 = (u32, u32, u32, u32);
 
 /// independent rectangle intersection (does not use the library's Rect)
 fn isect(a: R4, b: R4) -> Option<R4> {
@@ -35,7 +35,7 @@ fn fnv_bytes<'a>(it: impl Iterator<Item = &'a u8>) -> (u64, u32) {
 }
 
 /// expected (hash, len) of the data each chip receives for window `w` and pixel rows `p`
-fn expected_data(w: R4, p: &[u8]) -> [Option<(u64, u32)>; 4] {
+pub fn expected_data(w: R4, p: &[u8]) -> [Option<(u64, u32)>; 4] {
     let rb = (w.2 / 8) as usize;
     let k = (p.len() / rb).max(1);
     let mut out = [None; 4];
@@ -76,7 +76,7 @@ fn cmds_of_op(rig: &Rig12, chip: usize) -> Vec<CmdRec> {
 
 /// pin discipline over one op's log: selected chips' D/C agree; image data goes to exactly one chip;
 /// everything released at the end
-fn check_pins(rig: &Rig12, out: &mut Vec<(String, Vec<String>, String)>) {
+pub fn check_pins(rig: &Rig12, out: &mut Vec<(String, Vec<String>, String)>) {
     let b = rig.board.borrow();
     let segs = crate::props::common::op_segments(&b.log);
     let (_, s, e) = *segs.last().unwrap();
@@ -120,18 +120,18 @@ fn check_pins(rig: &Rig12, out: &mut Vec<(String, Vec<String>, String)>) {
 }
 
 #[derive(Clone)]
-struct Case {
-    win: Option<R4>, // None = full frame write
-    rows: u32,       // number of pixel rows supplied
-    plane2: bool,
-    salt: u64,
+pub struct Case {
+    pub win: Option<R4>, // None = full frame write
+    pub rows: u32, // number of pixel rows supplied
+    pub plane2: bool,
+    pub salt: u64,
 }
 
-fn pixels(rb: usize, rows: usize, salt: u64) -> Vec<u8> {
+pub fn pixels(rb: usize, rows: usize, salt: u64) -> Vec<u8> {
     (0..rb * rows).map(|i| (mix64(((i as u64) << 16) ^ salt) >> 13) as u8).collect()
 }
 
-fn check_write(c: &Case, rep: &mut Report) {
+pub fn check_write(c: &Case, rep: &mut Report) {
     rep.eval("epd12in48b_v2");
     let w = c.win.unwrap_or((0, 0, W, H));
     let rb = (w.2 / 8) as usize;
